@@ -21,6 +21,7 @@ import Driver.CatalogDrv
 import Driver.ExprDrv
 import Driver.CompatDrv
 import Driver.StmtDrv
+import Driver.InitDrv
 /-! `psymodel <component>`: reads one case per line on stdin, answers one line per case. -/
 
 partial def loop (h : IO.FS.Stream) (out : IO.FS.Stream) (f : String → String) : IO Unit := do
@@ -53,6 +54,7 @@ def main (args : List String) : IO UInt32 := do
   | ["climb"] => loop stdin stdout Driver.ClimbDrv.handle; return 0
   | ["rotate"] => loop stdin stdout Driver.RotateDrv.handle; return 0
   | ["stmt"] => loop stdin stdout Driver.StmtDrv.handle; return 0
+  | ["init"] => loop stdin stdout Driver.InitDrv.handle; return 0
   | ["compat"] => loop stdin stdout Driver.CompatDrv.handle; return 0
   | ["expr"] => loop stdin stdout Driver.ExprDrv.handle; return 0
   | ["catalog"] => loop stdin stdout Driver.CatalogDrv.handle; return 0
